@@ -19,16 +19,7 @@ MC_INVS = ["MeetsRef", "PosInRange", "PagesConcatenate", "EachChildOnce", "Bytes
            "ImpliedDirsExist", "FilesOpenAsFiles"]
 
 # Defects demonstrated on the unchanged tree (see the report; the integrator fixes files.go or moves these).
-PROPOSED_KNOWN = [
-    {"kind": "known", "signature": {"fam": "filesfs", "cause": "readdir-page-after-all-was-read"},
-     "what": "files.go filesDir.ReadDir(n<=0) does not advance the directory offset: after ReadDir(-1) returned every entry, ReadDir(n>0) returns entries again instead of io.EOF"},
-    {"kind": "known", "signature": {"fam": "filesfs", "cause": "entry-mode-of-directory"},
-     "what": "files.go filesDir.ReadDir: the DirEntry of an implied subdirectory has mode 0 (IsDir() false, Type() regular) although Stat of the child says directory (entries are built as filesFileInfo{name: name} without mode)"},
-    {"kind": "known", "signature": {"fam": "filesfs", "cause": "entry-info-size"},
-     "what": "files.go filesDir.ReadDir: DirEntry.Info().Size() of a non-empty file is 0 although Stat of the child gives the content length (entries are built as filesFileInfo{name: name} without data)"},
-    {"kind": "known", "signature": {"fam": "filesfs", "cause": "readdir-all-restarts-from-beginning"},
-     "what": "files.go filesDir.ReadDir(n<=0) ignores and does not advance the directory offset: after entries were already returned it returns the whole listing again instead of the remaining entries"},
-]
+PROPOSED_KNOWN = []   # both root causes found by this check were fixed in /repo (known-findings.json, kind "fixed")
 
 # causes of the reference that testing/fstest.TestFS is known to exercise (oracle guard applies to these only)
 FSTEST_COVERS = {"entry-mode-of-directory", "entry-mode-of-file", "entry-info-size", "entry-info-name", "entry-name",
